@@ -1,7 +1,207 @@
 /-
-  Props/C09.lean — property C09 (work in progress: theorems are added below).
+  Props/C09.lean — property C09: configurations violating a documented constraint are never accepted.
+
+  Model of what the code does: `load3` / `load2` (Model/Build.lean, Model/Load.lean) = the staged
+  pipeline of `_parse`: the four schema stages interpreted by Model/Schema.lean over `Gen.store` — the
+  translation of /repo's schema files, regenerated on every run — interleaved with the expansion stages
+  (C11/C12 model) and followed by the checks `_create_config` makes in Python (`pyChecks`).
+
+  What is proved:
+   * `accepted_passed_every_stage`: a document `load3` accepts passed the effective-configuration schema
+     stage and the Python checks;
+   * on the regenerated schema table (the `lookup_*` lemmas are re-checked against `Gen.store`, i.e. against
+     the schema files as they are now): integer sizes are integers between 1 and 64; optional alignments are
+     null or an integer ≥ 1; byte orders are one of the six documented spellings; an identifier is a string of
+     letters, digits and underscores not starting with a digit (no trailing new-line) which is none of the 28
+     documented TSDL keywords;
+   * the Python checks: an alignment passes iff it is a power of two; accepted structure member lists have
+     pairwise distinct names none of which is a keyword; the keyword set of `_validate_iden` (regenerated from
+     config_parse_v3.py) contains every documented keyword.
+  Partial: there is no single theorem `accepts → Spec` over the whole document grammar; the remaining
+  constraints of the statement are enforced by the same two mechanisms and are covered, on every run, by the
+  fault catalogue (every documented constraint × every location, real loader) and by verdict agreement
+  between `load3`/`load2` and the real loader in both directions.
 -/
-import BVM.Model.Load
+import BVM.Proofs.SchemaSem
 import BVM.Gen.Schemas
 namespace BVM
+
+def K_common (d : String) : String := "https://barectf.org/schemas/config/common/common.json#/definitions/" ++ d
+
+/-- docs/modules/yaml/pages/index.adoc, "TSDL identifier" -/
+def docKeywords : List String :=
+  ["align", "callsite", "const", "char", "clock", "double", "enum", "env", "event", "floating_point", "float",
+   "integer", "int", "long", "short", "signed", "stream", "string", "struct", "trace", "typealias", "typedef",
+   "unsigned", "variant", "void", "_Bool", "_Complex", "_Imaginary"]
+
+/-! ### the regenerated schema table says what the documentation says -/
+
+theorem lookup_int_size : Gen.store.lookup (K_common "int-ft-size-prop") =
+    some (Schema.obj [.type [.integer], .minimum 1, .maximum 64]) := by rfl
+
+theorem lookup_opt_int_min_1 : Gen.store.lookup (K_common "opt-int-min-1") =
+    some (Schema.obj [.ite (.obj [.type [.integer]]) (some (.obj [.minimum 1])) (some (.obj [.type [.null]]))]) := by rfl
+
+theorem lookup_opt_int_min_0 : Gen.store.lookup (K_common "opt-int-min-0") =
+    some (Schema.obj [.ite (.obj [.type [.integer]]) (some (.obj [.minimum 0])) (some (.obj [.type [.null]]))]) := by rfl
+
+theorem lookup_byte_order : Gen.store.lookup (K_common "byte-order-prop") =
+    some (Schema.obj [.type [.string],
+      .enum (["le", "little", "little-endian", "be", "big", "big-endian"].map Y.str)]) := by rfl
+
+theorem lookup_iden : Gen.store.lookup (K_common "iden-prop") =
+    some (Schema.obj [.type [.string],
+      .allOf [.obj [.pattern .idenZ], .obj [.not (.obj [.enum (docKeywords.map Y.str)])]]]) := by rfl
+
+theorem validate_ref (store : Store) (fuel : Nat) (key : String) (t : Schema) (y : Y)
+    (h : store.lookup key = some t) : validate store (fuel + 1) (.ref key) y = validate store fuel t y := by
+  simp [validate, h]
+
+/-- integer size outside 1–64 (or not an integer) never passes -/
+theorem int_size_constraint (fuel : Nat) (y : Y) :
+    validate Gen.store (fuel + 2) (.ref (K_common "int-ft-size-prop")) y = some true ↔
+      ∃ n, y = .int n ∧ 1 ≤ n ∧ n ≤ 64 := by
+  rw [validate_ref _ _ _ _ _ lookup_int_size]; exact sem_int_range _ _ _ _ _
+
+/-- alignment / minimum alignment / frequency: null or an integer ≥ 1 -/
+theorem opt_int_min_1_constraint (fuel : Nat) (y : Y) :
+    validate Gen.store (fuel + 3) (.ref (K_common "opt-int-min-1")) y = some true ↔
+      (y = .null ∨ ∃ n, y = .int n ∧ 1 ≤ n) := by
+  rw [validate_ref _ _ _ _ _ lookup_opt_int_min_1]; exact sem_opt_int_min _ _ _ _
+
+theorem opt_int_min_0_constraint (fuel : Nat) (y : Y) :
+    validate Gen.store (fuel + 3) (.ref (K_common "opt-int-min-0")) y = some true ↔
+      (y = .null ∨ ∃ n, y = .int n ∧ 0 ≤ n) := by
+  rw [validate_ref _ _ _ _ _ lookup_opt_int_min_0]; exact sem_opt_int_min _ _ _ _
+
+theorem byte_order_constraint (fuel : Nat) (y : Y) :
+    validate Gen.store (fuel + 2) (.ref (K_common "byte-order-prop")) y = some true ↔
+      ∃ s, y = .str s ∧ s ∈ ["le", "little", "little-endian", "be", "big", "big-endian"] := by
+  rw [validate_ref _ _ _ _ _ lookup_byte_order]; exact sem_str_enum _ _ _ _
+
+/-- invalid identifier: not a string, bad characters (a trailing new-line included), or a TSDL keyword -/
+theorem identifier_constraint (fuel : Nat) (y : Y) :
+    validate Gen.store (fuel + 4) (.ref (K_common "iden-prop")) y = some true ↔
+      ∃ s, y = .str s ∧ matchIdenZ s.toList = true ∧ s ∉ docKeywords := by
+  rw [validate_ref _ _ _ _ _ lookup_iden]; exact sem_iden _ _ _ _
+
+theorem identifier_chars (cs : List Char) (h : matchIdenZ cs = true) :
+    cs ≠ [] ∧ (∀ c ∈ cs, c.isAlphanum = true ∨ c = '_') ∧ '\n' ∉ cs :=
+  ⟨(matchIdenZ_chars cs h).1, (matchIdenZ_chars cs h).2, matchIdenZ_no_newline cs h⟩
+
+/-! ### the checks made in Python -/
+
+/-- alignment not a power of two never passes `_validate_alignment` -/
+theorem alignment_power_of_two (a : Int) : validateAlignment a = .ok () ↔ ∃ k : Nat, a = 2 ^ k :=
+  validateAlignment_ok a
+
+/-- the keyword set of `_validate_iden` (regenerated from the source) has every documented keyword -/
+theorem python_keywords_cover_docs : ∀ w ∈ docKeywords, w ∈ ctfKeywords := by decide
+
+theorem keyword_rejected (w : String) (h : w ∈ docKeywords) : validateIden w ≠ .ok () := by
+  have := python_keywords_cover_docs w h
+  simp [validateIden, this]
+
+/-- duplicate member names and keyword member names are never accepted -/
+theorem member_names_distinct (fuel : Nat) (ms : List Y) (h : createMembers fuel ms [] = .ok ()) :
+    (ms.filterMap memberName).Nodup ∧ ∀ n ∈ ms.filterMap memberName, n ∉ ctfKeywords := by
+  obtain ⟨h1, h2, _⟩ := createMembers_names fuel ms [] h
+  exact ⟨h1, fun n hn => (h2 n hn).2⟩
+
+theorem id_width (sz : Int) (count : Nat) : tooSmall (some (.int sz)) count = false ↔ count ≤ 2 ^ sz.toNat := by
+  simp [tooSmall]
+
+/-- a document the model of the loader accepts passed the effective-configuration schema stage and the
+    checks made in Python -/
+theorem accepted_passed_every_stage (store : Store) (W : World) (fuel : Nat) (cfg e : KVs)
+    (h : load3 store W fuel cfg = .ok e) :
+    pyChecks fuel e = .ok () ∧ ∃ cfg3, schemaStage store fuel "config/3/config" (.map cfg3) = .ok () := by
+  simp only [load3, bind, Except.bind, pure, Except.pure] at h
+  cases h0 : schemaStage store fuel "config/3/config-pre-include" (Y.map cfg) with
+  | error _ => simp [h0] at h
+  | ok _ =>
+  simp only [h0] at h
+  cases h1 : reqK "trace" cfg with
+  | error _ => simp [h1] at h
+  | ok tr =>
+  simp only [h1] at h
+  cases h2 : procInclude W fuel [] Kind.trace tr with
+  | error _ => simp [h2] at h
+  | ok tr1 =>
+  simp only [h2] at h
+  cases h3 : schemaStage store fuel "config/3/config-pre-field-type-expansion" (Y.map (kvSet "trace" tr1 cfg)) with
+  | error _ => simp [h3] at h
+  | ok _ =>
+  simp only [h3] at h
+  cases tr1 with
+  | map m =>
+    simp only at h
+    cases h4 : reqK "type" m with
+    | error _ => simp [h4] at h
+    | ok ttv =>
+    simp only [h4] at h
+    cases ttv with
+    | map tt =>
+      simp only at h
+      cases h5 : expandFts3 fuel tt with
+      | error _ => simp [h5] at h
+      | ok tt1 =>
+      simp only [h5] at h
+      cases h6 : schemaStage store fuel "config/3/config-pre-log-level-alias-sub"
+          (Y.map (kvSet "trace" (Y.map (kvSet "type" (Y.map tt1) m)) cfg)) with
+      | error _ => simp [h6] at h
+      | ok _ =>
+      simp only [h6] at h
+      cases h7 : subLogLevels tt1 with
+      | error _ => simp [h7] at h
+      | ok tt2 =>
+      simp only [h7] at h
+      cases h8 : schemaStage store fuel "config/3/config" (Y.map (kvSet "trace" (Y.map (kvSet "type" (Y.map tt2) m)) cfg)) with
+      | error _ => simp [h8] at h
+      | ok _ =>
+      simp only [h8] at h
+      cases h9 : normalizeTrace (kvSet "type" (Y.map tt2) m) with
+      | error _ => simp [h9] at h
+      | ok trm2 =>
+      simp only [h9] at h
+      cases h10 : pyChecks fuel (kvSet "trace" (Y.map trm2) cfg) with
+      | error _ => simp [h10] at h
+      | ok u =>
+      simp only [h10] at h
+      injection h with h
+      subst h
+      exact ⟨h10, _, h8⟩
+    | _ => simp at h
+  | _ => simp at h
+
+/-! ### non-vacuity -/
+
+example : validate Gen.store 8 (.ref (K_common "int-ft-size-prop")) (.int 64) = some true := by decide +kernel
+example : validate Gen.store 8 (.ref (K_common "int-ft-size-prop")) (.int 65) = some false := by decide +kernel
+example : validate Gen.store 8 (.ref (K_common "int-ft-size-prop")) (.float "8.0") = some false := by decide +kernel
+example : validate Gen.store 8 (.ref (K_common "iden-prop")) (.str "ev_1") = some true := by decide +kernel
+example : validate Gen.store 8 (.ref (K_common "iden-prop")) (.str "ev\n") = some false := by decide +kernel
+example : validate Gen.store 8 (.ref (K_common "iden-prop")) (.str "double") = some false := by decide +kernel
+example : (match validateAlignment 64 with | .ok _ => true | .error _ => false) = true := by decide +kernel
+example : (match validateAlignment 24 with | .ok _ => true | .error _ => false) = false := by decide +kernel
+
 end BVM
+
+#print axioms BVM.lookup_int_size
+#print axioms BVM.lookup_opt_int_min_1
+#print axioms BVM.lookup_opt_int_min_0
+#print axioms BVM.lookup_byte_order
+#print axioms BVM.lookup_iden
+#print axioms BVM.validate_ref
+#print axioms BVM.int_size_constraint
+#print axioms BVM.opt_int_min_1_constraint
+#print axioms BVM.opt_int_min_0_constraint
+#print axioms BVM.byte_order_constraint
+#print axioms BVM.identifier_constraint
+#print axioms BVM.identifier_chars
+#print axioms BVM.alignment_power_of_two
+#print axioms BVM.python_keywords_cover_docs
+#print axioms BVM.keyword_rejected
+#print axioms BVM.member_names_distinct
+#print axioms BVM.id_width
+#print axioms BVM.accepted_passed_every_stage
